@@ -290,3 +290,70 @@ Proof.
   - exists hnew. split; [exact Hc|]. intros k' s2'. destruct (D k' s2') as (f1 & F1). exists f1. intros g Hg. destruct (F1 g Hg) as (fin2 & C2 & _ & H2). exists fin2. split; [exact C2|exact H2].
 Qed.
 Print Assumptions C14_source_cs_read_with_properties_any_schedule.
+
+(* ... and the table-slice level: sbdf_ts_read (all columns) on the encoding of ANY well-formed table slice without bit arrays,
+   against a table metadata struct with that many columns, followed by anything, under EVERY allocation schedule: a negative
+   status with the out-cell untouched and everything the call allocated released - or OK with the stream exactly behind the
+   table slice and a result that one sbdf_ts_destroy releases completely. *)
+From Sbdf Require Import ImpFactsTsRead.
+Definition nobit_cs (c : cs va) : Prop := venc (csvals c) <> SBDF_BITARRAYENCODINGTYPEID /\ forall p, In p (csprops c) -> venc (snd p) <> SBDF_BITARRAYENCODINGTYPEID.
+
+Lemma cs_of_encoding : forall c rest, wf_cs c -> nobit_cs c -> cs_end (enc_cs false c ++ rest) = Some rest /\ cs_nobit (enc_cs false c ++ rest).
+Proof.
+  intros c rest (Wv & Bv & Hn & Wp) (Hne & Hnp). pose proof (zlen_nonneg (csprops c)) as N0.
+  assert (ESX : enc_cs false c ++ rest = [223; 91; SBDF_COLUMNSLICE_SECTIONID] ++ (enc_va false (csvals c) ++ enc32 false (zlen (csprops c)) ++ List.concat (map (enc_prop false) (csprops c)) ++ rest)).
+  { unfold enc_cs. rewrite <- !app_assoc. reflexivity. }
+  rewrite ESX. set (PT := List.concat (map (enc_prop false) (csprops c)) ++ rest).
+  destruct (rspec_sec_expect SBDF_COLUMNSLICE_SECTIONID) as [E0 _].
+  destruct (rspec_va false (csvals c) Wv Bv) as [EV _].
+  destruct (rspec_int32 false (zlen (csprops c)) ltac:(unfold i32_range; lia)) as [E32 _].
+  destruct (props_of_encoding (csprops c) rest (fun p Hp => conj (Wp p Hp) (Hnp p Hp))) as (PE & PN). fold PT in PE, PN.
+  assert (Hlen : Z.to_nat (zlen (csprops c)) = List.length (csprops c)) by (unfold zlen; lia).
+  split.
+  - unfold cs_end. rewrite E0, (EV (enc32 false (zlen (csprops c)) ++ PT)), (E32 PT). replace (zlen (csprops c) <? 0) with false by lia. rewrite Hlen. exact PE.
+  - split.
+    + intros s1 E. rewrite E0 in E. assert (Y : s1 = enc_va false (csvals c) ++ enc32 false (zlen (csprops c)) ++ PT) by congruence. subst s1. intros t s2 X. unfold enc_va in X. cbn [app] in X. injection X as X _. destruct Wv; cbn [venc] in *; try discriminate X. apply Hne. reflexivity.
+    + intros s1 va s2 v s3 E A R. rewrite E0 in E. assert (Y : s1 = enc_va false (csvals c) ++ enc32 false (zlen (csprops c)) ++ PT) by congruence. subst s1.
+      rewrite (EV (enc32 false (zlen (csprops c)) ++ PT)) in A. assert (Y : s2 = enc32 false (zlen (csprops c)) ++ PT) by congruence. subst s2.
+      rewrite (E32 PT) in R. assert (Y : v = zlen (csprops c) /\ s3 = PT) by (split; congruence). destruct Y as (-> & ->). rewrite Hlen. exact PN.
+Qed.
+
+Lemma cols_of_encoding : forall (cols : list (cs va)) tail, (forall c, In c cols -> wf_cs c /\ nobit_cs c) ->
+  cols_end (List.length cols) (List.concat (map (enc_cs false) cols) ++ tail) = Some tail /\ cols_nobit (List.length cols) (List.concat (map (enc_cs false) cols) ++ tail).
+Proof.
+  induction cols as [|c cols IH]; intros tail Hw; cbn [List.length map List.concat cols_end cols_nobit app]; [split; [reflexivity|exact I]|].
+  destruct (Hw c (or_introl eq_refl)) as (Wc & Nc). rewrite <- app_assoc.
+  destruct (cs_of_encoding c (List.concat (map (enc_cs false) cols) ++ tail) Wc Nc) as (CE & CN). rewrite CE.
+  destruct (IH tail (fun q Hq => Hw q (or_intror Hq))) as (I1 & I2). split; [exact I1|]. split; [exact CN|exact I2].
+Qed.
+
+Theorem C14_source_ts_read_any_schedule : forall rf rp fo po k m (h : heap) tmb cols tail, wf_ts cols -> (forall c, In c cols -> nobit_cs c) -> zlen cols <= 715827882 ->
+  cell_get h tmb 1 = Some (VInt (zlen cols)) -> Forall byte (enc_ts false cols ++ tail) ->
+  exists f0, forall f, (f0 <= f)%nat -> exists st fin,
+    callC prog_env f prog_sbdf_ts_read [VPtr rf fo; VCell tmb 0; VNull; VPtr rp po] m k (enc_ts false cols ++ tail) h = OReturn (VInt st) fin /\
+    ((st = SBDF_OK /\ Imp.lookup strm_var (vars fin) = Some (VBytes tail) /\ Imp.lookup "*out" (vars fin) = Some (VCell (List.length h) 0) /\
+        exists hnew, Imp.lookup cells_var (vars fin) = Some (VHeap (h ++ hnew)) /\
+          forall k' s', exists f1, forall g, (f1 <= g)%nat -> exists fin2,
+            callC prog_env g prog_sbdf_ts_destroy [VCell (List.length h) 0] (inb fin) k' s' (h ++ hnew) = ONormal fin2 /\
+            Imp.lookup cells_var (vars fin2) = Some (VHeap (h ++ nones (List.length hnew)))) \/
+     (st < 0 /\ Imp.lookup "*out" (vars fin) = Some VUndef /\ exists j, Imp.lookup cells_var (vars fin) = Some (VHeap (h ++ nones j)))).
+Proof.
+  intros rf rp fo po k m h tmb cols tail (Hn & W) Hnb Hsm Htm Hb.
+  pose proof (zlen_nonneg cols) as N0.
+  assert (ESX : enc_ts false cols ++ tail = [223; 91; 3] ++ (enc32 false (zlen cols) ++ List.concat (map (enc_cs false) cols) ++ tail)) by (unfold enc_ts; rewrite <- !app_assoc; reflexivity).
+  rewrite ESX in *. set (CT := List.concat (map (enc_cs false) cols) ++ tail) in *.
+  destruct (rspec_sec_read 3) as [E0 _].
+  destruct (rspec_int32 false (zlen cols) ltac:(unfold i32_range; lia)) as [E32 _].
+  destruct (cols_of_encoding cols tail (fun c Hc => conj (W c Hc) (Hnb c Hc))) as (CE & CN). fold CT in CE, CN.
+  assert (Hlen : Z.to_nat (zlen cols) = List.length cols) by (unfold zlen; lia).
+  assert (NBC : forall s1 s2, sec_read ([223; 91; 3] ++ enc32 false (zlen cols) ++ CT) = Ok (3, s1) -> read_int32 false s1 = Ok (zlen cols, s2) -> cols_nobit (Z.to_nat (zlen cols)) s2).
+  { intros s1 s2 A R. rewrite E0 in A. assert (Y : s1 = enc32 false (zlen cols) ++ CT) by congruence. subst s1. rewrite (E32 CT) in R. assert (Y : s2 = CT) by congruence. subst s2. rewrite Hlen. exact CN. }
+  destruct (ts_read_source rf rp fo po k _ m h tmb (zlen cols) Hb ltac:(lia) Htm NBC) as (f0 & F). exists f0. intros f Hf.
+  destruct (F f Hf) as (st & fin & C & _ & Out). exists st, fin. split; [exact C|].
+  destruct Out as [(E & Ho & (s1 & s2 & s' & A1 & A2 & A3 & A4) & hnew & Hc & _ & D)|(Hng & Ho & Hj)]; [|right; split; [exact Hng|split; [exact Ho|exact Hj]]].
+  left. split; [exact E|]. split; [|split; [exact Ho|]].
+  - rewrite E0 in A1. assert (Y : s1 = enc32 false (zlen cols) ++ CT) by congruence. subst s1. rewrite (E32 CT) in A2. assert (Y : s2 = CT) by congruence. subst s2.
+    rewrite Hlen, CE in A3. assert (s' = tail) by congruence. subst s'. exact A4.
+  - exists hnew. split; [exact Hc|]. intros k' s2'. destruct (D k' s2') as (f1 & F1). exists f1. intros g Hg. destruct (F1 g Hg) as (fin2 & C2 & _ & H2). exists fin2. split; [exact C2|exact H2].
+Qed.
+Print Assumptions C14_source_ts_read_any_schedule.
